@@ -114,6 +114,9 @@ class Interp:
         self.states_seen = 0
         self.callstack = []
         self.loop_states = {}
+        self.memo = {}
+        self._block_memo = {}
+        self._bound_cache = {}
 
     # ------------------------------------------------------------------ places
     def read(self, st, place):
@@ -212,6 +215,44 @@ class Interp:
 
     def local_root(self, st, lid):
         return ("L", st.depth, lid)
+
+    # ------------------------------------------------------------------ scope cleanup
+    def bound_ids(self, n):
+        """ids of all bindings introduced anywhere inside node n (cached)"""
+        c = self._bound_cache.get(id(n))
+        if c is None:
+            ids = set()
+            stack = [n]
+            while stack:
+                x = stack.pop()
+                if isinstance(x, dict):
+                    if x.get("p") == "Bind":
+                        ids.add(x["id"])
+                    if x.get("k") == "Closure":
+                        continue
+                    stack.extend(v for v in x.values() if isinstance(v, (dict, list)))
+                elif isinstance(x, list):
+                    stack.extend(x)
+            c = frozenset(ids)
+            self._bound_cache[id(n)] = c
+        return c
+
+    def drop_locals(self, st, ids):
+        if not ids:
+            return st
+        keys = [("L", st.depth, i) for i in ids if ("L", st.depth, i) in st.store]
+        if not keys:
+            return st
+        s = st.copy()
+        for k in keys:
+            del s.store[k]
+        return s
+
+    def scoped(self, results, ids, also=()):
+        """drop bindings `ids` from normally completing outcomes"""
+        if not ids:
+            return results
+        return [(ctl, v, self.drop_locals(s, ids) if ctl == OK else s) for ctl, v, s in results]
 
     # ------------------------------------------------------------------ expression evaluation
     def eval(self, n, st):
@@ -386,7 +427,22 @@ class Interp:
         return ("struct", path, tuple(d.items()))
 
     def e_Block(self, n, st):
+        bmemo = self._block_memo
+
         def run(i, st):
+            try:
+                mk = (id(n), i, st.freeze())
+            except TypeError:
+                return run_(i, st)
+            hit = bmemo.get(mk)
+            if hit is None:
+                hit = run_(i, st)
+                if len(hit) > 1:
+                    hit = self.dedupe(hit)
+                bmemo[mk] = hit
+            return hit
+
+        def run_(i, st):
             stmts = n.get("stmts", [])
             if i == len(stmts):
                 if "expr" in n:
@@ -415,9 +471,15 @@ class Interp:
                     if ctl != OK:
                         out.append((ctl, v, s2))
                     else:
-                        out.extend(run(i + 1, s2))
+                        out.extend(run(i + 1, self.gc(s2)))
             return out
         res = run(0, st)
+        lets = [x["pat"] for x in n.get("stmts", []) if x["k"] == "LetStmt"]
+        if lets:
+            ids = set()
+            for p in lets:
+                ids |= self.bound_ids(p)
+            res = self.scoped(res, ids)
         if "label" in n or True:
             # labelled block: break targeting this block yields its value
             out = []
@@ -431,16 +493,17 @@ class Interp:
 
     def e_If(self, n, st):
         out = []
+        ids = self.bound_ids(n["c"])
         for ctl, c, s in self.eval_cond(n["c"], st):
             if ctl != OK:
                 out.append((ctl, c, s))
                 continue
             if c:
-                out.extend(self.eval(n["t"], s))
+                out.extend(self.scoped(self.eval(n["t"], s), ids))
             elif "f" in n:
-                out.extend(self.eval(n["f"], s))
+                out.extend(self.eval(n["f"], self.drop_locals(s, ids)))
             else:
-                out.append((OK, UNIT, s))
+                out.append((OK, UNIT, self.drop_locals(s, ids)))
         return out
 
     def eval_cond(self, n, st):
@@ -516,16 +579,17 @@ class Interp:
             if not ok:
                 out.extend(self.match_arms(n, v, s2, i + 1))
                 continue
+            ids = self.bound_ids(arm["pat"])
             if "guard" in arm:
                 for ctl, c, s3 in self.eval_cond(arm["guard"], s2):
                     if ctl != OK:
                         out.append((ctl, c, s3))
                     elif c:
-                        out.extend(self.eval(arm["body"], s3))
+                        out.extend(self.scoped(self.eval(arm["body"], s3), ids))
                     else:
-                        out.extend(self.match_arms(n, v, s3, i + 1))
+                        out.extend(self.match_arms(n, v, self.drop_locals(s3, ids), i + 1))
             else:
-                out.extend(self.eval(arm["body"], s2))
+                out.extend(self.scoped(self.eval(arm["body"], s2), ids))
         return out
 
     # ---- pattern matching: returns list of (matched: bool, state)
@@ -680,13 +744,14 @@ class Interp:
             self.states_seen += 1
             if len(seen) > 200000:
                 raise Violation("loop state explosion at " + n.get("sp", "?"))
+            body_ids = self.bound_ids(n["body"])
             for ctl, v, s2 in self.eval(n["body"], s):
                 if ctl == OK:
-                    work.append(s2)
+                    work.append(self.drop_locals(s2, body_ids))
                 elif ctl == CONT and v == lid:
-                    work.append(s2)
+                    work.append(self.drop_locals(s2, body_ids))
                 elif ctl == BRK and isinstance(v, tuple) and v[0] == "__brk__" and v[1] == lid:
-                    out.append((OK, v[2], s2))
+                    out.append((OK, v[2], self.drop_locals(s2, body_ids)))
                 else:
                     out.append((ctl, v, s2))
         self.loop_states[key] = max(self.loop_states.get(key, 0), len(seen))
@@ -755,6 +820,15 @@ class Interp:
     def binop(self, op, l, r):
         while False:
             pass
+        if l[0] == "int" and r[0] == "int" and ("pos" in (l[1], r[1])):
+            a, b = l[1], r[1]
+            if a == "pos" and b == 0 and op in ("==", "!=", "<", "<=", ">", ">="):
+                return ("bool", {"==": False, "!=": True, "<": False, "<=": False, ">": True, ">=": True}[op])
+            if b == "pos" and a == 0 and op in ("==", "!=", "<", "<=", ">", ">="):
+                return ("bool", {"==": False, "!=": True, "<": True, "<=": True, ">": False, ">=": False}[op])
+            if op == "+":
+                return ("int", "pos")
+            return unk("posint")
         if l[0] == "int" and r[0] == "int":
             a, b = l[1], r[1]
             if op == "+":
@@ -1042,7 +1116,102 @@ class Interp:
         self.unknown_calls[callee] = self.unknown_calls.get(callee, 0) + 1
         return [(OK, unk("call:" + callee), st)]
 
+    def _refs_in(self, v, acc):
+        if not isinstance(v, tuple) or not v:
+            return
+        if v[0] == "ref":
+            acc.add(v[1][0])
+            return
+        if v[0] in ("str", "sstr", "int", "bool", "char", "unit", "unk"):
+            return
+        for x in v[1:]:
+            if isinstance(x, tuple):
+                if x and isinstance(x[0], str):
+                    self._refs_in(x, acc)
+                else:
+                    for y in x:
+                        if isinstance(y, tuple):
+                            self._refs_in(y, acc)
+                            if len(y) == 2 and isinstance(y[1], tuple):
+                                self._refs_in(y[1], acc)
+
+    def reachable_roots(self, st, vals):
+        acc = set()
+        for v in vals:
+            self._refs_in(v, acc)
+        done = set()
+        work = list(acc)
+        while work:
+            r = work.pop()
+            if r in done:
+                continue
+            done.add(r)
+            v = st.store.get(r)
+            if v is not None:
+                more = set()
+                self._refs_in(v, more)
+                work.extend(more - done)
+        return done
+
+    def gc(self, st, extra=()):
+        """drop anonymous temporaries that are no longer referenced"""
+        temps = [r for r in st.store if r[0] == "T" and isinstance(r[1], int)]
+        if not temps:
+            return st
+        acc = set()
+        for r, v in st.store.items():
+            if not (r[0] == "T" and isinstance(r[1], int)):
+                self._refs_in(v, acc)
+        for v in extra:
+            self._refs_in(v, acc)
+        done = set()
+        work = [r for r in acc if r[0] == "T" and isinstance(r[1], int)]
+        while work:
+            r = work.pop()
+            if r in done:
+                continue
+            done.add(r)
+            v = st.store.get(r)
+            if v is not None:
+                more = set()
+                self._refs_in(v, more)
+                work.extend(x for x in more if x not in done and x[0] == "T" and isinstance(x[1], int))
+        dead = [r for r in temps if r not in done]
+        if not dead:
+            return st
+        s = st.copy()
+        for r in dead:
+            del s.store[r]
+        return s
+
     def inline(self, f, args, st):
+        """frame rule: the callee sees only what is reachable from its arguments (+ monitors);
+        results are memoised on that footprint and merged back into the caller's store"""
+        try:
+            reach = self.reachable_roots(st, args)
+            sub = State({r: st.store[r] for r in reach if r in st.store}, st.mon, st.depth)
+            mk = (f["key"], tuple(args), sub.freeze())
+            hit = self.memo.get(mk)
+        except TypeError:
+            return self._inline(f, args, st)
+        if hit is None:
+            hit = self._inline(f, args, sub)
+            self.memo[mk] = hit
+        out = []
+        for ctl, v, s3 in hit:
+            store = dict(st.store)
+            for r in reach:
+                if r in s3.store:
+                    store[r] = s3.store[r]
+                else:
+                    store.pop(r, None)
+            for r, x in s3.store.items():
+                if r not in reach and r[0] == "T":
+                    store[r] = x
+            out.append((ctl, v, self.gc(State(store, s3.mon, st.depth), (v,) if isinstance(v, tuple) else ())))
+        return out
+
+    def _inline(self, f, args, st):
         self.callstack.append(f["key"])
         try:
             s = State(st.store, st.mon, st.depth + 1).copy()
@@ -1078,7 +1247,7 @@ class Interp:
         "<T as core::convert::From<T>>::from", "<alloc::string::String as core::convert::From<&str>>::from",
         "core::option::Option::<T>::as_ref", "core::option::Option::<T>::as_deref", "core::option::Option::<&T>::copied",
         "core::option::Option::<&T>::cloned", "core::option::Option::<T>::as_mut",
-        "<T as alloc::borrow::ToOwned>::to_owned", "std::path::Path::to_string_lossy", "std::path::PathBuf::as_path",
+        "<T as alloc::string::ToString>::to_string", "<T as alloc::borrow::ToOwned>::to_owned", "std::path::Path::to_string_lossy", "std::path::PathBuf::as_path",
         "<std::path::PathBuf as core::convert::From<&T>>::from", "<alloc::borrow::Cow<'_, T> as core::convert::AsRef<T>>::as_ref",
         "<std::path::PathBuf as core::ops::deref::Deref>::deref", "url::Url::as_str", "<alloc::string::String as core::convert::AsRef<str>>::as_ref",
         "<alloc::borrow::Cow<'_, B> as core::ops::deref::Deref>::deref", "<str as core::convert::AsRef<str>>::as_ref",
